@@ -17,6 +17,9 @@ func VerifK28dKeyDerivation() {
 	lens := []int{1, 31, 32, 33}
 	la := lens[vt.Choose("len-a", len(lens))]
 	lb := lens[vt.Choose("len-b", len(lens))]
+	// both keys on the same side of the AES key size: a short key whose digest happens to EQUAL another configured
+	// key's bytes would be a pre-image of SHA-256 - excluded as a cryptographic assumption, like collisions
+	vt.Assume((la < 32) == (lb < 32))
 	ka := vt.Bytes("ka", 33)
 	kb := vt.Bytes("kb", 33)
 	vt.Assume(len(ka) == la && len(kb) == lb)
